@@ -28,7 +28,9 @@ var c15BodyFuncs = map[string]map[string]bool{
 		"ChannelQueue.Poll": true, "ChannelQueue.TakeWithTimeout": true},
 	"cor.go": {"CorDef.close": true, "CorDef.doCloseSafe": true, "CorDef.receive": true, "CorDef.YieldFrom": true,
 		"CorDef.YieldRef": true, "CorDef.Start": true, "CorDef.StartWithVal": true, "CorDef.IsDone": true, "CorDef.IsStarted": true,
-		"CorDef.DoNotation": true, "CorDef.YieldFromIO": true, "CorNewGenerics": true},
+		"CorDef.DoNotation": true, "CorDef.YieldFromIO": true, "CorNewGenerics": true,
+		// the flag type behind every isClosed / isStarted
+		"AtomBool.Set": true, "AtomBool.Get": true},
 	"worker/pool.go": {"DefaultWorkerPool.Close": true, "DefaultWorkerPool.Schedule": true, "DefaultWorkerPool.IsClosed": true},
 }
 
